@@ -69,6 +69,14 @@ def set_strategy(multi, runs=True):
                     if draw(st.booleans()):
                         nodes += [{"br": 1}, {"t": "x"}]
                     cues.append({"start": a, "end": b, "nodes": nodes, "style": {}, "layout": None})
+                if runs and draw(st.integers(0, 5)) == 0:
+                    # a neighbour whose times differ, but only below the millisecond: it is
+                    # written with the same stamps and stays a cue of its own
+                    a2 = a - a % 1000 + draw(st.integers(0, 999))
+                    b2 = max(a2, b - b % 1000 + draw(st.integers(0, 999)))
+                    if (a2, b2) != (a, b) and a2 >= a:
+                        cues.append({"start": a2, "end": b2, "nodes": [{"t": f"n{len(cues)}"}], "style": {},
+                                     "layout": None})
             langs.append({"code": ["en-US", "fr-FR"][li], "layout": None, "cues": cues[:7]})
         if nl == 2 and draw(st.integers(0, 4)) == 0:
             # one of two languages has no captions
@@ -105,6 +113,11 @@ def case_strategy(tier):
         if draw(st.integers(0, 3)) == 0:
             # the writer object has been used before, on another set
             case["prev"] = draw(set_strategy(multi))
+        if draw(st.integers(0, 3)) == 0:
+            # the Caption objects have a past: they held other times, were formatted / printed /
+            # written, and were then given their present times
+            case["caption_past"] = draw(st.sampled_from(["format", "repr", "written"]))
+            case["past_shift"] = draw(st.sampled_from([1000, 2500000, 3600000000, -1000]))
         if draw(st.integers(0, 3)) == 0:
             # float instants as produced by SCCReader from generated timecodes
             n = sum(len(l["cues"]) for l in s["langs"])
@@ -181,6 +194,26 @@ def check_case(case, rec):
             return
         rec.label("float-times")
     cs = model.to_pycaption(m)
+    if case.get("caption_past"):
+        sh = case["past_shift"]
+        for lang_ in cs.get_languages():
+            for c in cs.get_captions(lang_):
+                c.start, c.end = max(0, c.start + sh), max(0, c.end + sh)
+        try:
+            if case["caption_past"] == "written":
+                for wn in ("srt", "dfxp", "webvtt"):
+                    _mk_writer(wn, case["opts"]).write(cs)
+            else:
+                for lang_ in cs.get_languages():
+                    for c in cs.get_captions(lang_):
+                        (c.format_start(), c.format_end()) if case["caption_past"] == "format" else repr(c)
+        except Exception:  # noqa  (the past is not what is being judged)
+            pass
+        k_ = {l["code"]: l["cues"] for l in m["langs"]}
+        for lang_ in cs.get_languages():
+            for c, orig in zip(cs.get_captions(lang_), k_[lang_]):
+                c.start, c.end = orig["start"], orig["end"]
+        rec.label("captions-with-a-past")
     writer = _mk_writer(w, case["opts"])
     lang = case["lang"]
     codes = [l["code"] for l in m["langs"]]
@@ -234,8 +267,17 @@ def check_case(case, rec):
 
     for li, (e_seq, g_seq) in enumerate(zip(exp, got)):
         if w in MERGING and not is_float:
-            ok_len = len(_collapse(e_seq)) <= len(g_seq) <= len(e_seq)
-            e_cmp, g_cmp = _collapse(e_seq), _collapse(g_seq)
+            # only captions with IDENTICAL (start, end) may be merged into one cue
+            cues_l = langs_written[li]["cues"]
+            e_runs = [e for k, e in enumerate(e_seq)
+                      if k == 0 or (cues_l[k]["start"], cues_l[k]["end"]) != (cues_l[k - 1]["start"], cues_l[k - 1]["end"])]
+            ok_len = len(e_runs) <= len(g_seq) <= len(e_seq)
+            if len(g_seq) == len(e_seq):
+                e_cmp, g_cmp = e_seq, g_seq
+            elif len(g_seq) == len(e_runs):
+                e_cmp, g_cmp = e_runs, g_seq
+            else:
+                e_cmp, g_cmp = _collapse(e_seq), _collapse(g_seq)
         else:
             # (float instants come from distinct SCC timecodes: nothing can be merged)
             ok_len = len(g_seq) == len(e_seq)
